@@ -1296,6 +1296,24 @@ package badger
 //@   assert[into-own-level] before call addTable : arg0 == lhandler
 //@   assert[own-level-handler] before call ID : lhandler == w.db.lc.levels[w.level]
 
+// addSplits: a split boundary is the biggest user key of a bottom table at version 0 (the
+// last possible version of that key, so every version of a key falls into one split); the last
+// split is open to the right; consecutive splits share their boundary.
+//@ func (*levelsController).addSplits
+//@   props C14 C12
+//@   light
+//@   assert[boundary-is-last-version-of-user-key] before call KeyWithTs : arg0 == ret(ParseKey#1) && arg1 == 0
+//@   assert[boundary-from-biggest] before call ParseKey : arg0 == ret(Biggest#1)
+//@   assert[last-split-open] before call addRange#1 : i == len(cd.bot) - 1 && len(arg0) == 0
+//@   assert[boundary-added] before call addRange#2 : arg0 == ret(KeyWithTs#1)
+
+//@ func (*levelsController).addSplits.addRange
+//@   props C14 C12
+//@   light
+//@   assert[own-copy-of-boundary] before call Copy : arg0 == right
+//@   assert[split-ends-at-boundary] before call append : skr.right == ret(Copy#1)
+//@   assert[next-starts-at-boundary] before return : skr.left == skr.right
+
 // ---- call-order rules that recovery relies on (C08, C10): ordering obligations only ----
 // Neither property is decided (a crash point is a cut through the effects of several
 // goroutines; a power loss needs a model of which writes survive). What is checked is that the
